@@ -666,8 +666,9 @@ class DFA:
 
     def mark_accepting(self, state):
         if isinstance(state, int):
-            self.accepting_states.append(DFState.all_states[state])
-        else:
+            state = DFState.all_states[state]
+        # a state listed twice would get the actions chained at the end of the DFA attached twice (chain_actions_into)
+        if state not in self.accepting_states:
             self.accepting_states.append(state)
 
     def simulate(self, actions):
